@@ -53,6 +53,14 @@ func registerExt(eng *liquid.Engine) {
 		}
 		return s, nil
 	})
+	// the loop state, read through the context and not through an expression
+	eng.RegisterTag("lqx_loopidx", func(c render.Context) (string, error) {
+		fl, ok := c.Get("forloop").(map[string]any)
+		if !ok {
+			return "-", nil
+		}
+		return fmt.Sprintf("%v/%v", fl["index"], fl["length"]), nil
+	})
 	// Errorf
 	eng.RegisterTag("lqx_fail", func(c render.Context) (string, error) { return "", c.Errorf("lqx: %s", c.TagArgs()) })
 	// SourceFile, RenderFile
@@ -93,6 +101,14 @@ func registerExt(eng *liquid.Engine) {
 			}
 		}
 		return out, nil
+	})
+	// a filter declared with a typed slice parameter
+	eng.RegisterFilter("lqx_sum", func(a []int) int {
+		n := 0
+		for _, x := range a {
+			n += x
+		}
+		return n
 	})
 	eng.RegisterFilter("lqx_rep", func(s string, n int) string {
 		if n < 0 || n > 1000 {
